@@ -26,8 +26,8 @@ def same(a, b):
         return "== raised %s" % type(e).__name__
     if type(a) is not type(b):
         return "classes differ"
-    fa = (a.GetUnit(), a.GetCategory(), a.GetQuantityType(), a.GetQuantity() is b.GetQuantity() or a.GetQuantity() == b.GetQuantity(), getattr(a, "dimension", None))
-    fb = (b.GetUnit(), b.GetCategory(), b.GetQuantityType(), True, getattr(b, "dimension", None))
+    fa = (a.GetUnit(), a.GetCategory(), a.GetQuantityType(), a.GetQuantity() is b.GetQuantity() or a.GetQuantity() == b.GetQuantity(), getattr(a, "dimension", None), a.GetQuantity().GetUnknownCaption() or "")
+    fb = (b.GetUnit(), b.GetCategory(), b.GetQuantityType(), True, getattr(b, "dimension", None), b.GetQuantity().GetUnknownCaption() or "")
     if fa != fb:
         return "fields differ: %r vs %r" % (fa, fb)
     return None
@@ -119,7 +119,7 @@ def compare_forms(ctx, forms, case, tag):
 
 
 def unit_sweep(ctx, db, r):
-    from barril.units import Scalar
+    from barril.units import ObtainQuantity, Scalar
 
     ubt = table.units_by_type(db)
     cbt = table.categories_by_type(db)
@@ -159,6 +159,13 @@ def unit_sweep(ctx, db, r):
                     compare_forms(ctx, ga, case2, "FixedArray[%s]" % kind)
                     compare_forms(ctx, fraction_forms(u, c2, v, False), case2, "FractionScalar")
                     compare_forms(ctx, fraction_forms(u, c2, v, False, True), case2, "FractionScalar(float)")
+            # ... and captioned requests for the same unit (they are other quantities; they must not take over
+            # the entry the unit-only forms resolve to)
+            try:
+                ObtainQuantity(u, None, "a caption")
+                ObtainQuantity(u, dc, "another caption")
+            except Exception as e:
+                ctx.violation("ObtainQuantity-with-caption-raised:%s" % type(e).__name__, dict(case, error=str(e)[:160]), replay=case)
             # pass 2: everything again under the default category, unit-only forms included
             again = compare_forms(ctx, scalar_forms(u, dc, v, True), case, "Scalar")
             if first is not None and again is not None:
@@ -172,7 +179,19 @@ def unit_sweep(ctx, db, r):
             compare_forms(ctx, fraction_forms(u, dc, v, True), case, "FractionScalar")
             compare_forms(ctx, fraction_forms(u, dc, v, True, True), case, "FractionScalar(float)")
             ctx.nt((u, dc))
-            # repr round trip
+            # repr round trip (also when the value arrived as a numpy scalar: a Scalar holds a plain float)
+            import numpy as np
+
+            for vv, nm in ((np.float64(v), "np.float64"), (np.float32(2.5), "np.float32"), (np.int64(3), "np.int64"), (7, "int")):
+                ctx.ev()
+                sv = Scalar(vv, u)
+                try:
+                    back = eval(repr(sv), {"Scalar": Scalar, "inf": float("inf"), "nan": float("nan")})
+                    why = same(sv, back)
+                    if why or not same(sv, Scalar(float(vv), u)) is None:
+                        ctx.violation("repr-does-not-evaluate-back-to-an-equal-Scalar:%s-value" % nm, dict(case, repr=repr(sv), why=why), replay=case)
+                except Exception as e:
+                    ctx.violation("repr-raised-or-does-not-evaluate:%s:%s-value" % (type(e).__name__, nm), dict(case, repr=repr(sv)[:120], error=str(e)[:160]), replay=case)
             ctx.ev()
             s = Scalar(v, u)
             try:
